@@ -37,6 +37,7 @@ ND_FIELDS = dict(shape=I, dtype=I, base=I, layout=I, val=R, writeable=B)
 
 # uninterpreted helpers shared by contracts
 NDIM = z3.Function("NDIM", I, I)  # number of dimensions of a shape id
+FLAG = z3.Function("FLAG", z3.StringSort(), I, I, z3.BoolSort())
 CANCAST = z3.Function("CANCAST", I, I, z3.BoolSort())
 STRIDES_EQ = z3.Function("STRIDES_EQ", I, I, I, I, z3.BoolSort())
 BSHAPE = z3.Function("BSHAPE", I, I, I)  # broadcast of two shape ids
@@ -108,6 +109,8 @@ class NdModel:
         if name == "strides":
             # strides are a function of (shape, layout); equal shapes => strides equal iff layouts equal
             return _Strides(h.get("ndarray", "shape", o.ref), h.get("ndarray", "layout", o.ref))
+        if name == "flags":
+            return _Flags(h.get("ndarray", "shape", o.ref), h.get("ndarray", "layout", o.ref), h.get("ndarray", "writeable", o.ref))
         if name == "astype":
             return lambda dtype, copy=True, **k: self.astype(interp, o, dtype, copy)
         if name == "copy":
@@ -198,6 +201,27 @@ class NdModel:
 
     def truth(self, interp, o):
         raise Unsupported("truth value of an array")
+
+
+class _Flags:
+    """ndarray.flags: contiguity flags are (uninterpreted) functions of (shape, layout) -- equal layouts of equal shapes have equal flags,
+    equal flags say nothing about the layouts"""
+
+    def __init__(self, shape, layout, writeable):
+        self.shape, self.layout, self.w = shape, layout, writeable
+
+    def __sym_getattr__(self, interp, name):
+        if name == "writeable":
+            return self.w
+        if name in ("c_contiguous", "f_contiguous", "fnc", "forc", "contiguous", "aligned", "owndata", "carray", "farray"):
+            return FLAG(z3.StringVal(name), self.shape, self.layout)
+        raise Unsupported(f"ndarray.flags.{name}")
+
+    def __sym_getitem__(self, interp, key):
+        k = {"C_CONTIGUOUS": "c_contiguous", "C": "c_contiguous", "F_CONTIGUOUS": "f_contiguous", "F": "f_contiguous", "WRITEABLE": "writeable", "FNC": "fnc", "FORC": "forc"}.get(key)
+        if k is None:
+            raise Unsupported(f"ndarray.flags[{key!r}]")
+        return self.__sym_getattr__(interp, k)
 
 
 class _Strides:
